@@ -244,7 +244,7 @@ def main(tier):
         # the block API (_if/_else/_while/_for) enters the same guard: bodies that update containers in place, divide inexactly or
         # compare out-of-range values in the arm that is NOT taken must leave every variable as native control flow does (NativeCF.tla)
         from checks import c09_check
-        cprogs = c09_check.cf_programs(tier, lambda nm: nm.startswith(("arr", "mat", "div", "nested", "seq", "iffor", "forif", "whileif")))
+        cprogs = c09_check.cf_programs(tier, lambda nm: nm.startswith(("arr", "mat", "div", "nested", "seq", "iffor", "forif", "whileif", "elif", "ifelse")))
         for p in cprogs:
             p["id"] = "blk/" + p["id"]
         ctr = common.run_programs(c09_check.CF_CFG, cprogs)
